@@ -185,6 +185,21 @@ def c07(tier, seed):
                         features=m["features"], verdict=v["verdict"]))
         for f in m["features"]:
             fc[f] = fc.get(f, 0) + 1
+    # the schedule as EXECUTED: jitted rollouts of two graphs (one with more than ten slots of a kind on the uniform lax.scan path) must run the slots
+    # in the order and with the sequence numbers / times / windows the schedule carries (RexRun clauses that belong to C07)
+    def runs_of(i, rng):
+        return [dict(eps=0, history=["rollout:99"]), dict(eps=1, history=["rollout:99"])]
+
+    def modes_run(i):
+        return [ALL_MODES[2 + (i % 2) * 2] + [{}], ALL_MODES[5 - (i % 2) * 2] + [{}]] if quick else [m + [{}] for m in ALL_MODES]
+
+    rjobs = _run_jobs_for(seed + 720, 2 if quick else 6, "c07run", runs_of, modes_run, fam=("fast_node", "slow_side_node"))
+    rres = common.run_jobs(rjobs, timeout=2700)
+    ritems = _collect(rep, rres, "runs")
+    rvs = _judge(rep, ritems, "RexRun", RUN_CLAUSE_PROPS, {"C07"}, "run")
+    for (job, res, t), v in zip(ritems, rvs):
+        if v["verdict"] == "accept":
+            rep.nontrivial(t["id"])
     rep.cov["rule"] = ("real rex.graph.Graph instances built from recorded (threaded runtime, ragged multi-episode) and generated computation graphs, "
                        "3 supergraph modes x prune on/off x user-supplied S_init; each episode's public Graph.timings is replayed by RexSchedule "
                        "against the raw graph: EachVertexOnce, InSeqOrder, ProducersFirst, SupClosesPartition, CarriesOwnTimes, CarriesOwnWindow "
